@@ -726,7 +726,7 @@ class DriverOracles(WalkOracles):
             for o in others:
                 if self.choose("build%d-eats-%d" % (i, o), (False, True)):
                     eaten.add(o)
-            it.write(me.cell, me.path + (("f", fi),), SetV(avail - eaten))
+            it.write(me.cell, me.path + (("f", fi),), SetV(avail - eaten, comp.fields[fi].nbits))
             if self.graph_route:
                 return Tup([Opaque("DnaString", {"seq:%d" % i}), exts_sym("n%d" % i), DequeV([]), Opaque("D", {"data"}, {"fold": ("n%d" % i,)})])
             er = args[3]
